@@ -29,7 +29,7 @@ func checkC09(c *Ctx) error {
 	var mbases []matrixProg
 	for _, mp := range matrixPrograms() {
 		switch mp.name {
-		case "ops-i8", "ops-i16", "ops-u8", "ops-u16", "ops-i32", "casts-from-i8", "casts-from-u16", "casts-from-i32", "const-flow", "params", "ranges", "stale-constants", "literal-operands-i8", "literal-operands-i32", "literal-operands-u16", "literal-operands-i64":
+		case "ops-i8", "ops-i16", "ops-u8", "ops-u16", "ops-i32", "casts-from-i8", "casts-from-u16", "casts-from-i32", "const-flow", "params", "ranges", "stale-constants", "dynamic-array-growth", "literal-operands-i8", "literal-operands-i32", "literal-operands-u16", "literal-operands-i64":
 			mbases = append(mbases, mp)
 		}
 	}
